@@ -12,6 +12,9 @@ CLAIMED = {
  "C02": ("exploration", "exhaustive enumeration of lattice paths x 4 fill rules against a winding-number oracle on the arrangement of the input edges, plus canonical-form and idempotence checks",
          "Every path of the named lattice families (all vertex tuples incl. degenerate/self-crossing up to pentagons/hexagons, two-contour combinations, rectilinear outer+inner+bar arrangements in all orientations, coarse snap grids, open subpaths) x 4 fill rules is settled by the real code; region equality, winding in {0,1}, absence of proper crossings among output segments and idempotence are checked on every case. Complete within the lattices.",
          "trusted: internal/oracle; delta=1e-6 (2*eps on coarse grids); one known finding (open subpaths are kept open) is keyed by the predicate 'input has an open subpath'", "DESIGN.md §3 C02"),
+ "C06": ("exploration", "exhaustive enumeration of lattice/curved shapes x all lattice and half-lattice query points against a half-open-rule winding oracle",
+         "Every shape of the named families (all lattice triangles/quadrilaterals/pentagons incl. degenerate and self-crossing, triangles with one edge replaced by a quadratic/cubic/arc, rectangle nestings in all orientations, open variants) is queried at every lattice and half-lattice point of its bounding box +-1 (exactly the points level with vertices, horizontal edges, curve extremes and tangent rays) and at off-lattice points; Windings, Contains (4 rules), Crossings, the boundary flag, CCW and Filling are compared with the oracle on every query. Complete within the families.",
+         "trusted: internal/oracle dense polylines (1024 samples per curve; queries within 2e-5 of a curve skipped and counted); two known findings keyed by predicates computed from the input (ray passes a vertex/extreme -> Crossings parity; open subpath)", "DESIGN.md §3 C06"),
 }
 REASON_PENDING = "check not built yet in this session (planned in DESIGN.md §9); not claimed until it exists and is green"
 
